@@ -73,7 +73,9 @@ Outlives(s) == TC(Named(s.decl \cup RefImplied(s) \cup DefImplied(s)) \cup {<<l,
 \*  a reference type counts as stated)
 Spelled(s) == s.decl \cup RefImplied(s)
 MustRestate(s) == {pr \in DefImplied(s) : pr[1] \in L /\ pr[2] \in L /\ pr[1] # pr[2]}
-Accepted(s) == MustRestate(s) \subseteq Spelled(s)
+\* "spelled out" = entailed by what is written on the method: the transitive closure of the declared bounds and
+\* of the bounds that reference types imply by themselves
+Accepted(s) == MustRestate(s) \subseteq TC(Named(Spelled(s)))
 
 \* ---- what must be kept alive ----------------------------------------------------------------
 PNames(s) == (IF s.self.kind = "none" THEN {} ELSE {"self"}) \cup {IF i = 1 THEN "x" ELSE "y" : i \in 1..Len(s.params)}
